@@ -680,7 +680,50 @@ impl World {
                         let sl = g[6 + dl] as usize;
                         if 7 + dl + sl <= g.len() {
                             let scid = g[7 + dl..7 + dl + sl].to_vec();
-                            match self.rng.below(2) {
+                            let is_initial = (g[0] >> 4) & 3 == 0;
+                            let pick = if is_initial { self.rng.below(4) } else { self.rng.below(2) };
+                            match pick {
+                                2 | 3 => {
+                                    // two coalesced bogus Initials in one datagram of the same size, sent
+                                    // from the genuine source: neither authenticates
+                                    let mut j = 7 + dl + sl;
+                                    let rd = |d: &[u8], j: usize| -> Option<(u64, usize)> {
+                                        if j >= d.len() {
+                                            return None;
+                                        }
+                                        let n = 1usize << (d[j] >> 6);
+                                        if j + n > d.len() {
+                                            return None;
+                                        }
+                                        let mut v = (d[j] & 0x3f) as u64;
+                                        for k in 1..n {
+                                            v = (v << 8) | d[j + k] as u64;
+                                        }
+                                        Some((v, n))
+                                    };
+                                    if let Some((tl, n)) = rd(&g, j) {
+                                        j += n + tl as usize;
+                                        if j < g.len() {
+                                            let hdr = g[..j].to_vec(); // up to (excluding) the Length field
+                                            let total = g.len().max(1200);
+                                            let first_payload = 30usize;
+                                            let mut a_pkt = hdr.clone();
+                                            put_var(&mut a_pkt, first_payload as u64);
+                                            for _ in 0..first_payload {
+                                                a_pkt.push(self.rng.below(256) as u8);
+                                            }
+                                            let mut b_pkt = hdr.clone();
+                                            let rest = total.saturating_sub(a_pkt.len() + hdr.len() + 2).max(40);
+                                            b_pkt.extend_from_slice(&((rest as u16) | 0x4000).to_be_bytes());
+                                            for _ in 0..rest {
+                                                b_pkt.push(self.rng.below(256) as u8);
+                                            }
+                                            out = a_pkt;
+                                            out.extend_from_slice(&b_pkt);
+                                            forged = Some((gsrc, gdst));
+                                        }
+                                    }
+                                }
                                 0 => {
                                     // Version Negotiation towards the sender of `g`
                                     out.push(0x80 | (self.rng.below(128) as u8));
@@ -705,7 +748,9 @@ impl World {
                                     }
                                 }
                             }
-                            forged = Some((gdst, gsrc));
+                            if forged.is_none() {
+                                forged = Some((gdst, gsrc));
+                            }
                         }
                     }
                 } else if g.len() > 30 {
